@@ -7,6 +7,7 @@ Import ListNotations.
 Theorem neuron_resume : forall (NM : Num) (c : Neuron.cls) (p : Neuron.params NM) (s0 : Neuron.nstate NM)
     (pre post : list (Neuron.op NM)) (t : Neuron.nstate NM),
   nrn_inv NM c s0 ->
+  Forall (nrn_op_ok NM c) pre ->
   let s := fst (run (nrn_step NM c p) s0 pre) in
   nrn_compat NM c s t ->
   run (nrn_step NM c p) (nrn_load NM c (nrn_save NM c s) t) post =
